@@ -276,6 +276,10 @@ func newWorld(thorough bool) *world {
 		{"cross-root", "p256-3", I1, []*node{I1, R1x2, R2}},
 		{"reissued-root", "p256-3", I1, []*node{I1, R1re, R1}},
 		{"renamed-root-aki", "p256-3", K, []*node{K, R3new}},
+		// leaves that carry the one public key the signature check exempts from "the issuer must be a CA"
+		{"entrust-key-direct", "entrust2048-public", R1, []*node{R1}},
+		{"entrust-key-one-int", "entrust2048-public", I1, []*node{I1, R1}},
+		{"entrust-key-two-int", "entrust2048-public", I2, []*node{I2, I1, R1}},
 	}
 	kinds := []string{kCert, kPre, kPoisonNC, kPoisonNN, kPoisonT, kPoisonL}
 	if thorough {
@@ -287,6 +291,9 @@ func newWorld(thorough bool) *world {
 		id := fmt.Sprintf("L(%s,%s,%v)", parent.id, kind, ekus)
 		if parent.subject != nil && (parent == X1 || parent == X2) {
 			id = fmt.Sprintf("L(X,%s,%v)", kind, ekus)
+		}
+		if key == "entrust2048-public" {
+			id += "~entrustkey"
 		}
 		if l, ok := leafOf[id]; ok {
 			return l
